@@ -867,5 +867,10 @@ def replay(rec):
         except Exception as e:       # noqa: B902
             R.check("oracle-internal-error", False, f"{type(e).__name__}: {e}")
     f = [x for x in R.failures if not x["key"].startswith("KF:")]
+    # the two defects of the unchanged tree count as a reproduction only when the record is about them
+    if refit is False or "notfitted" in text:
+        f += [x for x in R.failures if x["key"].startswith("KF:cutoff-without-refit")]
+    if "update_params" in text or "default" in text:
+        f += [x for x in R.failures if x["key"].startswith("KF:update-default")]
     return {"reproduced": bool(f), "detail": f[:3],
             "input": {"greater_is_better": gib, "refit": refit, "randomized": rand, "n_candidates_hint": ncand, "configurations_run": len(chosen)}}
